@@ -16,7 +16,7 @@ use std::time::Duration;
 use stretto::verif::{clock, counters, sched, seq, ticker};
 
 /// (yield point, role of the thread to park: 0 = background processor, 2 = the triggering client, trigger)
-pub const POINTS: [(&str, u8, &str); 24] = [
+pub const POINTS: [(&str, u8, &str); 25] = [
     ("proc:insert_arm", 0, "insert-new"),
     ("policy:add:enter", 0, "insert-new"),
     ("item:new:after_policy_add", 0, "insert-new"),
@@ -28,6 +28,7 @@ pub const POINTS: [(&str, u8, &str); 24] = [
     ("policy:remove:enter", 0, "remove"),
     ("item:delete:after_policy_remove", 0, "remove"),
     ("store:remove:enter", 0, "remove"),
+    ("cleanup:after_buckets_taken", 0, "tick"),
     ("cleanup:after_expiry_check", 0, "tick"),
     ("proc:clear_arm", 0, "clear"),
     ("clear:after_drain", 0, "clear"),
@@ -56,6 +57,7 @@ fn do_insert(d: &dyn Drv, rec: &Rec, tid: u8, ids: &AtomicU64, k: u64, cost: i64
     let id = ids.fetch_add(1, Ordering::SeqCst);
     let mut r = OpRec { tid, op: OP_INSERT, key: k, id, cost, ttl_ns, ..Default::default() };
     let before = val::tl_exits();
+    r.vcall = clock::now_ns();
     r.call = seq::next();
     match d.try_insert(k, Tracked::new(id, k), cost, Duration::from_nanos(ttl_ns)) {
         Ok(b) => r.ok = b,
@@ -154,7 +156,10 @@ fn scenario(flavor: Flavor, point: &'static str, role: u8, trig: &'static str, r
     let gate = sched::Gate::new();
     sched::arm_gate_for_role(point, role, gate.clone());
     // ---- trigger: the activity that runs into the point (thread A)
-    let same = 2u64; // the key both sides work on
+    // the key both sides work on; for the cleanup points it is the key the tick finds expired
+    let same = if trig == "tick" { 1u64 } else { 2u64 };
+    // a racing write on the key under cleanup refreshes it: without TTL, or with one that is still running
+    let racer_ttl_ns = if trig == "tick" && rng.chance(1, 2) { 10_000_000_000u64 } else { 0 };
     let trigger: Box<dyn FnOnce(Arc<dyn Drv>, Arc<Rec>, Arc<AtomicU64>) + Send> = match trig {
         "insert-new" => Box::new(move |d, rec, ids| {
             do_insert(d.as_ref(), &rec, 2, &ids, 5, 1, 0);
@@ -208,7 +213,7 @@ fn scenario(flavor: Flavor, point: &'static str, role: u8, trig: &'static str, r
                 }
                 "remove-other" => drop(do_simple(d3.as_ref(), &rec3, 3, OP_REMOVE, 3, &ids3)),
                 "update-same" => {
-                    let w = do_insert(d3.as_ref(), &rec3, 3, &ids3, same, 1, 0);
+                    let w = do_insert(d3.as_ref(), &rec3, 3, &ids3, same, 1, racer_ttl_ns);
                     let after = do_get(d3.as_ref(), &rec3, 3, same);
                     if w.ok && w.update_path && !(after.hit && after.seen_id == w.id) {
                         out.push(format!("insert on resident k{same} took the update path (#{:x}) but the next look-up returned {}", w.id, if after.hit { format!("#{:x}", after.seen_id) } else { "nothing".into() }));
